@@ -520,3 +520,38 @@ Qed.
 Lemma editor_temp_neither nm k pre : editor_temp nm = true ->
   listed_files pre (NFile nm k) = [] /\ surviving_files pre (NFile nm k) = [].
 Proof. intros H; unfold listed_files; cbn; rewrite H, andb_false_r; auto. Qed.
+
+(** * C12: several runs into one output directory *)
+Lemma mem_id_refl id l : mem_id id (id :: l) = true.
+Proof. unfold mem_id; cbn. rewrite bytes_eqb_refl. reflexivity. Qed.
+
+(** A run whose id is taken is refused; it does not move into the other
+    run's directory. *)
+Theorem second_run_same_id_refused id st st' :
+  start_run id st = Some st' -> start_run id st' = None.
+Proof.
+  unfold start_run. destruct (mem_id id (od_runs st)); [discriminate|].
+  destruct (remove_alias (od_alias st)); [|discriminate].
+  intros H; inversion H; subst; cbn [od_runs]. rewrite mem_id_refl. reflexivity.
+Qed.
+
+(** Run a starts, run b starts later, run a ends and erases its directory
+    (--clear): the alias still leads to b's directory. *)
+Lemma start_run_inv id st st' : start_run id st = Some st' ->
+  mem_id id (od_runs st) = false /\
+  st' = {| od_alias := ALink (run_link id); od_runs := id :: od_runs st |}.
+Proof.
+  unfold start_run. destruct (mem_id id (od_runs st)); [discriminate|].
+  destruct (od_alias st); cbn; intros H; inversion H; auto.
+Qed.
+
+Theorem later_run_keeps_latest a b st sa sb :
+  bytes_eqb a b = false ->
+  start_run a st = Some sa -> start_run b sa = Some sb ->
+  alias_leads_to (end_run a true sb) = Some b.
+Proof.
+  intros Hab Ha Hb.
+  apply start_run_inv in Ha as [_ ->]. apply start_run_inv in Hb as [_ ->].
+  unfold alias_leads_to, end_run, run_link; cbn [od_alias od_runs filter].
+  rewrite Hab. cbn [negb]. rewrite mem_id_refl. reflexivity.
+Qed.
